@@ -31,7 +31,8 @@ class Gen2(k2.Gen):
         self.nsched = 0
         self.nss = 0          # enclosing let_value_with_stop_source operations
         self.p_new = p_new
-        self.un2 = UN2 if wsa else [k for k in UN2 if k != "wsav"]   # wsav needs a C++20 build
+        self.un2 = UN2 if wsa else [k for k in UN2 if k != "wsav"]   # wsav and stopif need a C++20 build
+        self.cxx20 = wsa
 
     def sid(self):
         self.nsched += 1
@@ -45,7 +46,7 @@ class Gen2(k2.Gen):
             self.nleaf += 1
             return ("leafr", self.nleaf - 1, r.randrange(self.nss))
         c = r.random()
-        if c < self.p_new * 0.2: return ("stopif",)
+        if c < self.p_new * 0.2 and self.cxx20: return ("stopif",)
         if c < self.p_new * 0.3: return ("jfrom", self.fn())
         return super().leafish(nbound)
 
@@ -68,6 +69,9 @@ class Gen2(k2.Gen):
                 a = self.expr(sa, nbound)
                 b = self.expr(size - 1 - sa, nbound + 1)
                 return ("retry", r.randint(0, 2), a, b)
+        if size > 1 and r.random() < self.p_new * 0.4:
+            sa = r.randint(1, size - 1)
+            return ("wany", self.expr(sa, nbound), self.expr(size - sa, nbound))
         if size > 1 and r.random() < self.p_new:
             k = r.choice(self.un2)
             if k != "withsched" and self.nsched >= 4:
@@ -78,6 +82,30 @@ class Gen2(k2.Gen):
             i = self.sid()
             return (k, i, c, self.expr(size - 1, nbound))
         return super().expr(size, nbound)
+
+
+def lvalue_lete(e, lv=False):
+    """let_error's connect() does not compile for an lvalue sender (finding: let_error.hpp builds
+    operation_type<Source,...> whose constructor takes Source&& from s.source_); repeat_effect_until and
+    retry_when connect their source as an lvalue, which propagates through every sender stored as a member.
+    Second finding of the same kind: let_value_with_stop_source's sender has an unconstrained forwarding
+    constructor, so it cannot be copied from a non-const lvalue, which sequence does with its successor when
+    sequence itself is connected as an lvalue.
+    True if e has a let_error / such a let_value_with_stop_source (the generator then draws another expression)."""
+    k = e[0]
+    if k == "lete" and lv:
+        return True
+    if k == "seq" and lv and e[2][0] == "lvss":
+        return True
+    if k in ("repeat",):
+        return lvalue_lete(e[2], True)
+    if k == "retry":
+        return lvalue_lete(e[2], True) or lvalue_lete(e[3], False)
+    if k in ("letv", "lete", "letd"):
+        return lvalue_lete(e[1], lv) or lvalue_lete(e[2], False)
+    if k in ("lvss", "defer"):
+        return lvalue_lete(e[-1], False)
+    return any(lvalue_lete(x, lv) for x in subexprs(e))
 
 
 def subexprs(e):
@@ -176,7 +204,8 @@ def _cpp(e, bound, ss):
     if k == "letd": return "unifex::let_done(%s, [=]() { return %s; })" % (a, b)
     if k == "seq": return "unifex::sequence(k2::voided(%s), %s)" % (a, b)
     if k == "fin": return "unifex::finally(%s, k2::voided(%s))" % (a, b)
-    if k == "wall": return "k2::wall(%s, %s)" % (a, b)
+    if k == "wall": return "k2v2::wall(%s, %s)" % (a, b)
+    if k == "wany": return "k2v2::wany(%s, %s)" % (a, b)
     if k == "swhen": return "unifex::stop_when(%s, k2::voided(%s))" % (a, b)
     raise ValueError(k)
 
@@ -246,24 +275,39 @@ def canon(trace):
     """k2.canon (stop cascades sorted, model-only `leak` dropped) after removing the implementation-only
     `fin <id>` completion markers (they feed the monitor)."""
     body, _, tail = trace.partition(" # ")
-    evs = [x for x in body.split(";") if x and not x.startswith("fin ")]
+    evs = [x for x in body.split(";") if x and x != "|" and not x.startswith("fin ")]
     return k2.canon(";".join(evs) + " # " + tail)
 
 
 def canon_weak(trace):
-    """Fallback canonical form for traces that differ only in the order in which the callbacks of ONE stop
-    source ran (most-recently-registered first in the library; the structural model does not track
-    registration order, see k2.canon): the sequence of all events other than `stopseen`, plus, per leaf,
-    the order of that leaf's own events (start, stopseen, dtor)."""
+    """Fallback canonical form for runs in which ONE stop request reached several callbacks of one stop source
+    in an order the structural model does not reproduce (the library runs them most-recently-registered first;
+    the model, like Calc, runs the second child's before the first child's and does not track registration
+    order, see k2.canon).  The trace is cut at the batch markers `|` (one batch = the consequences of one script
+    event).  A batch with fewer than two `stopseen` must match exactly; a batch with two or more is compared as
+    a multiset of events plus, per leaf, the order of that leaf's own events."""
     body, _, tail = trace.partition(" # ")
-    evs = [x for x in body.split(";") if x and not x.startswith("fin ") and not x.startswith("leak ")]
-    seq = [x for x in evs if not x.startswith("stopseen ")]
-    per = {}
-    for x in evs:
-        w = x.split()
-        if w[0] in ("start", "stopseen", "dtor") and len(w) > 1:
-            per.setdefault(w[1], []).append(w[0])
-    return (tuple(seq), tuple(sorted((k, tuple(v)) for k, v in per.items())), tail)
+    batches, cur = [], []
+    for x in body.split(";"):
+        if not x or x.startswith("fin ") or x.startswith("leak "):
+            continue
+        if x == "|":
+            batches.append(cur); cur = []
+        else:
+            cur.append(x)
+    batches.append(cur)
+    out = []
+    for b in batches:
+        if sum(1 for x in b if x.startswith("stopseen ")) < 2:
+            out.append(tuple(b))
+            continue
+        per = {}
+        for x in b:
+            w = x.split()
+            if w[0] in ("start", "stopseen", "dtor", "reqstop") and len(w) > 1:
+                per.setdefault(w[1], []).append(w[0])
+        out.append((tuple(sorted(b)), tuple(sorted((k, tuple(v)) for k, v in per.items()))))
+    return (tuple(out), tail)
 
 
 def monitor_ctx(e, evs):
@@ -292,7 +336,7 @@ def monitor(trace, e=None):
     root operation was destroyed, never before that leaf completed, no event of a leaf after its
     destruction; nothing but destruction after the root completed."""
     body, _, tail = trace.partition(" # ")
-    evs = [x for x in body.split(";") if x]
+    evs = [x for x in body.split(";") if x and x != "|"]
     roots = [x for x in evs if x.startswith("root ") ]
     if len(roots) > 1:
         return "C01: %d root completions" % len(roots)
@@ -372,6 +416,12 @@ CORPUS = list(k2.CORPUS) + [
     ("retry", 2, ("jerr", 21), ("just", 1)),
     ("retry", 1, ("wall", ("leaf", 0), ("leafn", 1)), ("then", ("add", 1), ("var", 0))),
     ("intov", ("wall", ("leaf", 0), ("stopif",))),
+    ("wany", ("leaf", 0), ("leaf", 1)),
+    ("wany", ("leafn", 0), ("leaf", 1)),
+    ("wany", ("wall", ("leaf", 0), ("leafn", 1)), ("letv", ("leaf", 2), ("jerr", 22))),
+    ("fin", ("wany", ("leafn", 0), ("leafn", 1)), ("leaf", 2)),
+    ("wany", ("just", 3), ("leaf", 0)),
+    ("wany", ("jerr", 23), ("wany", ("leaf", 0), ("jdone",))),
     ("defer", ("letv", ("just", 5), ("then", ("add", 1), ("var", 0)))),
     ("letv", ("just", 7), ("defer", ("wall", ("var", 0), ("jfrom", ("add", 2))))),
 ]
@@ -402,12 +452,16 @@ def run_k2v2(chk, n_tus, cases_per_tu, scripts_per_case, size_range=(2, 8), cfg=
     for t in range(n_tus):
         cases = []
         for c in range(cases_per_tu):
-            g = gen(rng) if gen else Gen2(rng, wsa=cfg.endswith("20"))
-            cases.append(g.expr(rng.randint(*size_range)))
+            while True:
+                g = gen(rng) if gen else Gen2(rng, wsa=cfg.endswith("20"))
+                e = g.expr(rng.randint(*size_range))
+                if not lvalue_lete(e):
+                    break
+            cases.append(e)
         tus.append(cases)
     corpus = CORPUS if corpus is None else corpus
     if not cfg.endswith("20"):
-        corpus = [c for c in corpus if "wsav" not in to_model(c)]
+        corpus = [c for c in corpus if "wsav" not in to_model(c) and "stopif" not in to_model(c)]
     if corpus:
         tus = [corpus[i:i + cases_per_tu] for i in range(0, len(corpus), cases_per_tu)] + tus
     cd = vlib.cache_dir()
@@ -485,4 +539,4 @@ def standard_k2v2(chk):
     run_k2v2(chk, n_tus=6 if quick else 40, cases_per_tu=8, scripts_per_case=24 if quick else 60)
     # C++20 build: the same plus with_scheduler_affinity (its header needs coroutine support)
     return run_k2v2(chk, n_tus=1 if quick else 6, cases_per_tu=8, scripts_per_case=24 if quick else 60, cfg="plain20",
-                    corpus=[c for c in CORPUS if "wsav" in to_model(c)] + [CORPUS[0]], seed_salt=1000)
+                    corpus=[c for c in CORPUS if "wsav" in to_model(c) or "stopif" in to_model(c)] + [CORPUS[0]], seed_salt=1000)
